@@ -15,7 +15,7 @@ use std::sync::Mutex;
 
 pub const ID: &str = "C11";
 
-const SRC: [&str; 10] = [
+const SRC: [&str; 11] = [
     "v + 1",
     "q",
     "[1, 2].map(v, v + w)",
@@ -29,6 +29,8 @@ const SRC: [&str; 10] = [
     // two texts that differ only in blanks inside a literal
     "size('a  b') + v",
     "size('a b') + v",
+    // a map comparison with one differing entry and one failing entry (u is never bound)
+    "{'a': v, 'b': w, 'c': u} == {'a': 7, 'b': 10, 'c': 3}",
 ];
 const PROGS: [&str; 3] = ["m", "q", "r"];
 const VARS: [&str; 2] = ["v", "w"];
@@ -56,7 +58,7 @@ pub enum Op {
     Details(u8, u8),
 }
 
-pub const OPS: [Op; 20] = [
+pub const OPS: [Op; 21] = [
     Op::Add(0, 0, 0),
     Op::Add(0, 0, 1),
     Op::Add(0, 1, 2),
@@ -67,6 +69,7 @@ pub const OPS: [Op; 20] = [
     Op::Add(0, 2, 7),
     Op::Add(0, 2, 8),
     Op::Add(1, 2, 9),
+    Op::Add(0, 1, 10),
     Op::Bind(0, 0, 0),
     Op::Bind(0, 0, 1),
     Op::Bind(0, 1, 2),
@@ -157,7 +160,7 @@ impl<'a> Real<'a> {
 thread_local! {
     /// results of freshly built objects, per (context content, binding content, program)
     static FRESH: RefCell<HashMap<(BTreeMap<u8, u8>, BTreeMap<u8, u8>, u8), String>> = RefCell::new(HashMap::new());
-    static BYTECODE: RefCell<HashMap<u8, String>> = RefCell::new(HashMap::new());
+    static BYTECODE: RefCell<HashMap<u8, Program>> = RefCell::new(HashMap::new());
 }
 
 fn fresh_result(ctx: &BTreeMap<u8, u8>, bind: &BTreeMap<u8, u8>, p: u8) -> String {
@@ -180,14 +183,15 @@ fn fresh_result(ctx: &BTreeMap<u8, u8>, bind: &BTreeMap<u8, u8>, p: u8) -> Strin
     r
 }
 
-fn fresh_bytecode(s: u8) -> String {
+/// a freshly compiled program of the source (compared instruction-wise; constants that are maps
+/// compare independently of their iteration order)
+fn fresh_program(s: u8) -> Program {
     if let Some(r) = BYTECODE.with(|f| f.borrow().get(&s).cloned()) {
         return r;
     }
     let p = Program::from_source(SRC[s as usize]).expect("fixed sources compile");
-    let r = format!("{:?}", p.bytecode());
-    BYTECODE.with(|f| f.borrow_mut().insert(s, r.clone()));
-    r
+    BYTECODE.with(|f| f.borrow_mut().insert(s, p.clone()));
+    p
 }
 
 fn hist_show(h: &[Op]) -> Vec<String> {
@@ -227,7 +231,7 @@ fn check_state(h: &[Op], abs: &Abs, real: &mut Real, execs: &[(usize, Outcome)],
                             format!("c{}.{} = `{}`", c, PROGS[p as usize], SRC[*s as usize]),
                             format!("{:?}", prog.source()),
                         );
-                    } else if format!("{:?}", prog.bytecode()) != fresh_bytecode(*s) {
+                    } else if !real::bytecode_same(prog, &fresh_program(*s)) {
                         acc.violation(
                             "stored-program-bytecode-changed",
                             case(),
@@ -441,6 +445,103 @@ fn threads_part(t: Tier, acc: &mut Acc) -> u64 {
     runs
 }
 
+// ---------------------------------------------------------------------------
+// interference: a result must not depend on which OTHER programs ran before on the same thread
+
+fn interference_programs() -> Vec<String> {
+    let mut v: Vec<String> = Vec::new();
+    for p in ["a", "b+", "^c", "d$", "[e]", "f|g", "h?i", "(j)", "k*l", "m{2}", "\\d", "n.", "[^o]p", "q+?"] {
+        v.push(format!("s.matches('{}')", p));
+        v.push(format!("s.matchCaptures('{}')", p));
+        v.push(format!("s.matchReplace('{}', 'X')", p));
+        v.push(format!("s.matchReplaceOnce('{}', 'X')", p));
+    }
+    for z in ["UTC", "US/Pacific", "Europe/Berlin", "Asia/Tokyo", "Australia/Sydney", "America/Sao_Paulo", "Africa/Cairo", "Asia/Kolkata", "Pacific/Auckland", "America/New_York"] {
+        v.push(format!("t.getHours('{}')", z));
+        v.push(format!("t.getDate('{}')", z));
+    }
+    for (a, b) in [("m", "ft"), ("kg", "lb"), ("l", "gal"), ("s", "min"), ("km", "mi"), ("g", "oz"), ("c", "f"), ("in", "cm"), ("yd", "m"), ("h", "s")] {
+        v.push(format!("uomConvert(2.5, '{}', '{}')", a, b));
+    }
+    for d in ["1s", "90s", "1h30m", "2h", "15m", "1500ms", "3h5m", "45s", "7m", "10h"] {
+        v.push(format!("duration('{}') + d0", d));
+    }
+    for k in 0..10 {
+        v.push(format!("s.split('{}')", (b'a' + k) as char));
+        v.push(format!("timestamp('2023-0{}-1{}T0{}:00:00Z') < t", 1 + k % 9, k, k));
+        v.push(format!("{{'k{}': n}}.map(x, x)", k));
+    }
+    v
+}
+
+fn interference_bindings<'a>() -> BindContext<'a> {
+    let mut b = BindContext::new();
+    b.bind_param("s", CelValue::String("abcdefghijkklmmn.opq1".into()));
+    b.bind_param("n", CelValue::Int(3));
+    if let Outcome::Value(t) = real::eval("timestamp('2024-03-10T09:59:59Z')", &[]) {
+        b.bind_param("t", t);
+    }
+    if let Outcome::Value(d) = real::eval("duration('1s')", &[]) {
+        b.bind_param("d0", d);
+    }
+    b
+}
+
+fn run_interference(idx: u64, acc: &mut Acc) {
+    let progs = interference_programs();
+    let a = progs[idx as usize].clone();
+    let exec_one = |src: &str| -> String {
+        let b = interference_bindings();
+        real::eval_with(src, &b).show()
+    };
+    // on a thread that has run nothing else
+    let a1 = a.clone();
+    let r0 = std::thread::spawn(move || {
+        let b = interference_bindings();
+        real::eval_with(&a1, &b).show()
+    })
+    .join()
+    .unwrap_or_else(|_| "thread panicked".into());
+    // on a thread that ran every other program before (twice around), then A three times
+    let all = progs.clone();
+    let a2 = a.clone();
+    let later: Vec<String> = std::thread::spawn(move || {
+        real::install_panic_hook();
+        for _ in 0..2 {
+            for p in &all {
+                let b = interference_bindings();
+                let _ = real::eval_with(p, &b);
+            }
+        }
+        (0..3)
+            .map(|_| {
+                let b = interference_bindings();
+                real::eval_with(&a2, &b).show()
+            })
+            .collect()
+    })
+    .join()
+    .unwrap_or_else(|_| vec!["thread panicked".into()]);
+    let _ = exec_one;
+    acc.evals(2 * progs.len() as u64 + 4);
+    acc.nontrivial(&("interference", idx));
+    acc.class(if r0.starts_with("Value") { "value" } else { "fail" });
+    for (i, r) in later.iter().enumerate() {
+        if *r != r0 {
+            acc.violation(
+                "result-depends-on-programs-executed-before-on-the-same-thread",
+                json!({"src": a, "executed_before": format!("all {} interference programs, twice", progs.len()), "repetition": i}),
+                format!("the result on a thread that ran nothing else: {}", r0),
+                r.clone(),
+            );
+            break;
+        }
+    }
+    if acc.wants_sample() {
+        acc.sample(json!({"src": a, "alone": r0, "after_all_others": later}));
+    }
+}
+
 fn schedule_audit() -> Vec<String> {
     let mut hits = Vec::new();
     fn walk(dir: &std::path::Path, hits: &mut Vec<String>) {
@@ -477,13 +578,15 @@ fn schedule_audit() -> Vec<String> {
 pub fn replay_families(t: Tier) -> Vec<Family<'static>> {
     // the search reaches depth 6 / 12: every history it can report is addressable
     let maxlen = t.pick(6, 12);
-    (1..=maxlen).map(|l| Family::new(&format!("histories-{}", l), (OPS.len() as u64).pow(l as u32), move |i, a| run_history(l, i, a))).collect()
+    let mut v: Vec<Family<'static>> = (1..=maxlen).map(|l| Family::new(&format!("histories-{}", l), (OPS.len() as u64).pow(l as u32), move |i, a| run_history(l, i, a))).collect();
+    v.push(Family::new("interference", interference_programs().len() as u64, run_interference));
+    v
 }
 
 pub fn run(t: Tier) -> i32 {
     let mut rep = Report::new(ID, t, "model_checking");
     rep.rule = format!(
-        "model: two contexts (name -> source over 3 names, 10 colliding sources: a variable, a reference to another program, a macro whose loop variable is named like a bound variable, map macros, a macro shadowing w and reading q, a program referring to itself, keys differing only in case, two texts differing only in blanks inside a literal) and two binding sets (2 variables, 4 values); 20 operations (add/replace x10, bind/rebind x4, clone context, clone bindings, exec x3, inspect details). bfs: breadth-first search to depth {} (or closure) deduplicated on the canonical abstract state, every transition executed on real objects rebuilt by replaying the history and the successor checked on every arrival; histories: every history of length 1..{} without deduplication ({} histories). Invariants after every history: the real objects hold exactly the model state (sources, bytecode equal to a fresh compile, bindings); every stored program under both binding sets, executed twice (40 times for histories of length <= 2), equals the result of freshly built objects holding the same abstract state; every exec inside the history gave what the state before it determines. Non-trivial = every history; distinct by history",
+        "model: two contexts (name -> source over 3 names, 11 colliding sources: a variable, a reference to another program, a macro whose loop variable is named like a bound variable, map macros, a macro shadowing w and reading q, a program referring to itself, keys differing only in case, two texts differing only in blanks inside a literal, a map comparison with a failing entry) and two binding sets (2 variables, 4 values); 21 operations (add/replace x11, bind/rebind x4, clone context, clone bindings, exec x3, inspect details). bfs: breadth-first search to depth {} (or closure) deduplicated on the canonical abstract state, every transition executed on real objects rebuilt by replaying the history and the successor checked on every arrival; histories: every history of length 1..{} without deduplication ({} histories). interference: each of 126 programs over regex patterns, zones, units, durations, timestamps and map macros gives, after all the others ran twice on the same thread, the result it gives on a thread that ran nothing else. Invariants after every history: the real objects hold exactly the model state (sources, bytecode equal to a fresh compile, bindings); every stored program under both binding sets, executed twice (40 times for histories of length <= 2), equals the result of freshly built objects holding the same abstract state; every exec inside the history gave what the state before it determines. Non-trivial = every history; distinct by history",
         t.pick(6, 12),
         t.pick(4, 5),
         (1..=t.pick(4u32, 5u32)).map(|l| (OPS.len() as u64).pow(l)).sum::<u64>()
@@ -500,6 +603,7 @@ pub fn run(t: Tier) -> i32 {
         traces += f.size;
         rep.run_family(f);
     }
+    rep.run_family(Family::new("interference", interference_programs().len() as u64, run_interference));
     let mut acc = Acc::default();
     acc.family = "threads".into();
     let truns = threads_part(t, &mut acc);
